@@ -4,7 +4,7 @@ CFG = {'streams': [{'name': 'C15',
               'n_thorough': 2000,
               'thorough_seeds': 2,
               'what_fails': 'debug attributes: 40 erasing the three attributes from the debug run does not give the plain run (or success differs); '
-                            '41 a node lacks one of the three attributes or an edge lacks its location; otherwise model with debug configuration vs '
+                            '41 a node lacks one of the three attributes or an edge lacks its location; 42 a cited location does not point, in the DSL text (1-based line and CHARACTER column), at the variable of the node statement / at an edge keyword; otherwise model with debug configuration vs '
                             'implementation (codes 1-7)'}],
  'rule': 'generated programs (as C01) x sources x both modes x {no debug attributes, debug attributes dbg_loc/dbg_var/dbg_match}; non-trivial = at '
          'least two edge statements and a successful debug run',
